@@ -75,6 +75,18 @@ IsKet(M) == M.c = 1
 Proj(psi) == Mat(psi.r, psi.r, LAMBDA i, j : GMul(psi.e[i + 1], GConj(psi.e[j + 1])))
 AsDop(x) == IF IsKet(x) THEN Proj(x) ELSE x
 
+\* `expectation(a, b)` as documented: |<a|b>|^2 for two kets, <k|A|k> for a ket and an operator
+\* (in either order), and the Hilbert-Schmidt product Tr[A B] (no conjugation) for two operators;
+\* it is the routine that evaluates both sides of  Tr[embed(A) rho] = Tr[A ptr(rho)]
+Inner(a, b) == GSum([k \in 1..a.r |-> GMul(GConj(a.e[k]), b.e[k])])
+Sandwich(k, A) == GSum([n \in 1..(A.r * A.c) |->
+                    GMul(GMul(GConj(k.e[((n - 1) \div A.c) + 1]), A.e[n]), k.e[((n - 1) % A.c) + 1])])
+Expec(a, b) ==
+  IF IsKet(a) /\ IsKet(b) THEN LET z == Inner(a, b) IN GMul(z, GConj(z))
+  ELSE IF IsKet(a) THEN Sandwich(a, b)
+  ELSE IF IsKet(b) THEN Sandwich(b, a)
+  ELSE TrProd(a, b)
+
 \* "requesting only a range of rows returns exactly those rows of the full object"
 Rows(X, ri, rf) == Mat(rf - ri, X.c, LAMBDA i, j : At(X, ri + i, j))
 
